@@ -6,6 +6,7 @@ import Gaftools.Drv.Conv
 import Gaftools.Drv.Order
 import Gaftools.Drv.Bgzf
 import Gaftools.Drv.GraphExtra
+import Gaftools.Drv.TextLayer
 /-! The correspondence driver: one JSON object per line in, one per line out. -/
 open Lean Gaftools.Drv
 
@@ -32,6 +33,9 @@ def dispatch (op : String) (j : Json) : Except String Json :=
   | "order.command" => Order.opCommand j
   | "bgzf.resolve" => Bgzf.opResolve j
   | "graph.extra" => GraphExtra.opExtra j
+  | "findpath.run" => TextLayer.opRun j
+  | "region.parse" => TextLayer.opRegion j
+  | "text.spaces" => TextLayer.opSpaces j
   | _ => throw s!"unknown op {op}"
 
 partial def loop (h : IO.FS.Stream) (out : IO.FS.Stream) : IO Unit := do
